@@ -3,6 +3,7 @@ package c12
 import (
 	"fmt"
 	"go/ast"
+	"go/constant"
 	"go/token"
 	"go/types"
 	"regexp"
@@ -53,6 +54,12 @@ type roler struct {
 	// leafCall lets a rule name a call result itself ("", false: default).
 	leafCall func(s flow.Site, call *ast.CallExpr, f *types.Func, idx int, d int) (string, bool)
 	allocID  bool // allocations (&T{}, new(T)) carry their position: identity matters
+	// role strings that were produced by a conversion to a named type (to tell
+	// `T(x)` from a call rendered the same way)
+	convRoles map[string]bool
+	// roles of structs that are built once and afterwards only read (also through
+	// pointers lent to read-only helpers): a field may be selected through `&`
+	frozen map[string]bool
 }
 
 func newRoler(c *core.Ctx, root *core.Fn, opaque func(*types.Func) bool) *roler {
@@ -223,6 +230,11 @@ func (r *roler) roleD(s flow.Site, x ast.Expr, d int) string {
 		}
 		if sel, ok := info.Selections[v]; ok && sel.Kind() == types.FieldVal {
 			base := r.roleD(s, v.X, d+1)
+			if r.frozen[base] {
+				if val, ok := projectField(strings.TrimPrefix(base, "&"), v.Sel.Name, sel.Obj().Type()); ok {
+					return val
+				}
+			}
 			if val, ok := projectField(base, v.Sel.Name, sel.Obj().Type()); ok {
 				return val
 			}
@@ -248,6 +260,9 @@ func (r *roler) roleD(s flow.Site, x ast.Expr, d int) string {
 		}
 		return v.Op.String() + r.roleD(s, v.X, d+1)
 	case *ast.IndexExpr:
+		if er, ok := r.slotRole(s, v, d); ok {
+			return er
+		}
 		rx, ri := r.roleD(s, v.X, d+1), r.roleD(s, v.Index, d+1)
 		if ri == "key("+rx+")" {
 			return "elem(" + rx + ")"
@@ -297,9 +312,41 @@ func (r *roler) roleD(s flow.Site, x ast.Expr, d int) string {
 	case *ast.CallExpr:
 		if tv, ok := info.Types[v.Fun]; ok && tv.IsType() && len(v.Args) == 1 {
 			inner := r.roleD(s, v.Args[0], d+1)
+			// a conversion does not change the value, only the static type: an inner
+			// conversion under another one is irrelevant (`[]byte(listElement(v))` is v)
+			if r.convRoles[inner] {
+				inner = inner[strings.IndexByte(inner, '(')+1 : len(inner)-1]
+			}
+			// a struct (pointer) converted between types with the same fields is that
+			// struct under the target's name: (*HashElement)(&hashElement{...})
+			tt := tv.Type
+			ptr := false
+			if pt, ok := tt.Underlying().(*types.Pointer); ok {
+				if _, named := tt.(*types.Named); !named {
+					tt, ptr = pt.Elem(), true
+				}
+			}
+			if _, isStruct := tt.Underlying().(*types.Struct); isStruct {
+				body := inner
+				if ptr {
+					body = strings.TrimPrefix(inner, "&")
+				}
+				if open := strings.IndexByte(body, '{'); open > 0 && (ptr == strings.HasPrefix(inner, "&")) && !strings.ContainsAny(body[:open], "(|?[ .") {
+					out := typeName(tt) + body[open:]
+					if ptr {
+						out = "&" + out
+					}
+					return out
+				}
+			}
 			if n, ok := tv.Type.(*types.Named); ok {
 				if _, basic := n.Underlying().(*types.Basic); !basic {
-					return n.Obj().Name() + "(" + inner + ")"
+					out := n.Obj().Name() + "(" + inner + ")"
+					if r.convRoles == nil {
+						r.convRoles = map[string]bool{}
+					}
+					r.convRoles[out] = true
+					return out
 				}
 			}
 			return inner
@@ -529,6 +576,7 @@ func (r *roler) addressedStruct(s flow.Site, id *ast.Ident, d int) (string, bool
 	var declRHS ast.Expr
 	var declNode ast.Node
 	decls, addrs, bad := 0, 0, false
+	lent := 0
 	isV := func(x ast.Expr) bool {
 		b, ok := ast.Unparen(x).(*ast.Ident)
 		return ok && core.ObjOf(info, b) == obj
@@ -591,9 +639,24 @@ func (r *roler) addressedStruct(s flow.Site, id *ast.Ident, d int) (string, bool
 					bad = true
 				}
 			}
+			// `&v` handed to a module function that (transitively) writes no field of
+			// v's type only lends the value for reading
+			for _, a := range x.Args {
+				if u, ok := ast.Unparen(a).(*ast.UnaryExpr); ok && u.Op == token.AND && isV(u.X) {
+					if f := core.CalleeFunc(info, x); f != nil && f.Pkg() != nil && strings.HasPrefix(f.Pkg().Path(), core.Module) && !r.writesFieldsOf(f, v.Type()) {
+						lent++
+					}
+				}
+			}
 		}
 		return true
 	})
+	frozen := false
+	if !bad && decls == 1 && declNode != nil && addrs > 1 && lent == addrs {
+		// only ever lent for reading: the value is what it was built as, wherever it is looked at
+		frozen = true
+		addrs = 1
+	}
 	if bad || decls != 1 || addrs != 1 || declNode == nil {
 		return "", false
 	}
@@ -607,7 +670,142 @@ func (r *roler) addressedStruct(s flow.Site, id *ast.Ident, d int) (string, bool
 		return "", false
 	}
 	ds := flow.Site{G: s.G, At: pt, Up: s.Up}
-	return r.mergeFields(s, id, obj, declRHS == nil, declRHS, ds, fieldStores, fieldIdx, true, d), true
+	out := r.mergeFields(s, id, obj, declRHS == nil, declRHS, ds, fieldStores, fieldIdx, true, d)
+	if frozen || lent == 1 && len(fieldStores) == 0 {
+		if r.frozen == nil {
+			r.frozen = map[string]bool{}
+		}
+		r.frozen[out] = true
+	}
+	return out, true
+}
+
+// writesFieldsOf: f may (transitively) assign a field of struct type t.
+func (r *roler) writesFieldsOf(f *types.Func, t types.Type) bool {
+	st, ok := t.Underlying().(*types.Struct)
+	if !ok {
+		return true
+	}
+	w := r.e.Writes(f)
+	for i := 0; i < st.NumFields(); i++ {
+		if w[st.Field(i)] {
+			return true
+		}
+	}
+	return false
+}
+
+// slotRole: `a[k]` with a constant k, where a is a local array (or slice made
+// with a constant length) that is only ever written slot by slot at constant
+// indices (`a[0] = x`, `a[1], err = f()`) and never handed out: the slot is what
+// was stored there. The store must not sit in a loop that the read is outside
+// of... both simply have to be straight-line slots: any non-constant index
+// store, slicing, address or passing of a makes it unknown.
+func (r *roler) slotRole(s flow.Site, ix *ast.IndexExpr, d int) (string, bool) {
+	info := s.G.Info
+	base, ok := ast.Unparen(ix.X).(*ast.Ident)
+	if !ok {
+		return "", false
+	}
+	k, ok := core.IntConst(info, ix.Index)
+	if !ok {
+		return "", false
+	}
+	obj, ok := core.ObjOf(info, base).(*types.Var)
+	if !ok || obj.IsField() || obj.Pkg() == nil || obj.Parent() == nil || obj.Parent() == obj.Pkg().Scope() {
+		return "", false
+	}
+	if _, isArr := obj.Type().Underlying().(*types.Array); !isArr {
+		return "", false
+	}
+	isV := func(x ast.Expr) bool {
+		b, ok := ast.Unparen(x).(*ast.Ident)
+		return ok && core.ObjOf(info, b) == obj
+	}
+	type slotStore struct {
+		as  *ast.AssignStmt
+		idx int
+	}
+	var stores []slotStore
+	bad := false
+	reads := map[*ast.IndexExpr]bool{}
+	ast.Inspect(s.G.Body, func(n ast.Node) bool {
+		switch x := n.(type) {
+		case *ast.FuncLit:
+			if core.Mentions(info, x, obj) {
+				bad = true
+			}
+			return false
+		case *ast.AssignStmt:
+			for i, l := range x.Lhs {
+				if isV(l) && x.Tok != token.DEFINE {
+					bad = true
+				}
+				if li, ok := ast.Unparen(l).(*ast.IndexExpr); ok && isV(li.X) {
+					reads[li] = true // not a read
+					kk, isC := core.IntConst(info, li.Index)
+					if !isC || x.Tok != token.ASSIGN {
+						bad = true
+						continue
+					}
+					if kk == k {
+						stores = append(stores, slotStore{x, i})
+					}
+				}
+			}
+		case *ast.IndexExpr:
+			if isV(x.X) {
+				if _, isC := core.IntConst(info, x.Index); !isC {
+					bad = true
+				}
+				reads[x] = true
+			}
+		case *ast.Ident:
+			// any other mention (passing a, slicing it, taking its address, ranging over it)
+		}
+		return !bad
+	})
+	if bad {
+		return "", false
+	}
+	// every mention of a must be one of the index expressions seen
+	mentions, indexed := 0, 0
+	ast.Inspect(s.G.Body, func(n ast.Node) bool {
+		switch x := n.(type) {
+		case *ast.IndexExpr:
+			if isV(x.X) {
+				indexed++
+			}
+		case *ast.Ident:
+			if info.Uses[x] == obj {
+				mentions++
+			}
+		}
+		return true
+	})
+	if mentions != indexed || len(stores) != 1 {
+		return "", false
+	}
+	st := stores[0]
+	pt, ok := s.G.Find(st.as)
+	if !ok {
+		return "", false
+	}
+	at := flow.Site{G: s.G, At: pt, Up: s.Up}
+	// the store must come before the read on every path (same iteration)
+	if use := s.At.Node(); use != nil {
+		target := st.as
+		if dom, _ := s.G.Dominated(s.At, func(n ast.Node) bool { return n == ast.Node(target) }); !dom {
+			return "", false
+		}
+	}
+	if len(st.as.Lhs) == len(st.as.Rhs) {
+		return r.roleD(at, st.as.Rhs[st.idx], d+1), true
+	}
+	if call, ok := ast.Unparen(st.as.Rhs[0]).(*ast.CallExpr); ok && len(st.as.Rhs) == 1 {
+		return r.callRole(at, call, st.idx, d+1), true
+	}
+	return "", false
 }
 
 // projectField selects field f from a struct role `T{a:X,b:Y}` / `&T{...}`
@@ -915,7 +1113,26 @@ func (r *roler) induction(s flow.Site, id *ast.Ident, st flow.StepResult, d int)
 		})
 	}
 	scan(loop.Cond, 0)
-	cmp, ok := lin.CmpOf(info, loop.Cond, true)
+	// the bound test, possibly in conjunction with "no error so far" tests (a loop
+	// that also stops at the first error still visits the elements in order)
+	boundCond := loop.Cond
+	if facts := cfgq.Facts(loop.Cond, true); len(facts) > 1 {
+		boundCond = nil
+		for _, f := range facts {
+			pos := flow.Positive(f)
+			if r.noErrorTest(info, pos, 0) {
+				continue
+			}
+			if boundCond != nil {
+				return "", false
+			}
+			boundCond = pos
+		}
+		if boundCond == nil {
+			return "", false
+		}
+	}
+	cmp, ok := lin.CmpOf(info, boundCond, true)
 	if !ok {
 		return "", false
 	}
@@ -933,6 +1150,64 @@ func (r *roler) induction(s flow.Site, id *ast.Ident, st flow.StepResult, d int)
 		}
 	}
 	return "", false
+}
+
+// isNoErrorTest: `err == nil` (in any spelling cfgq.Facts/flow.Positive leave:
+// `err == nil`, `nil == err`) for an error-typed variable or field.
+func (r *roler) noErrorTest(info *types.Info, x ast.Expr, depth int) bool {
+	x = ast.Unparen(x)
+	if isNoErrorTest(info, x) {
+		return true
+	}
+	if depth > 2 {
+		return false
+	}
+	// `!w.failed()` with `func (w *T) failed() bool { return w.err != nil }`
+	neg := false
+	if u, ok := x.(*ast.UnaryExpr); ok && u.Op == token.NOT {
+		neg, x = true, ast.Unparen(u.X)
+	}
+	call, ok := x.(*ast.CallExpr)
+	if !ok || len(call.Args) != 0 {
+		return false
+	}
+	f := core.CalleeFunc(info, call)
+	if f == nil {
+		return false
+	}
+	fn := r.c.FnOf(f)
+	if fn == nil || fn.Decl == nil || fn.Decl.Body == nil || len(fn.Decl.Body.List) != 1 {
+		return false
+	}
+	ret, ok := fn.Decl.Body.List[0].(*ast.ReturnStmt)
+	if !ok || len(ret.Results) != 1 {
+		return false
+	}
+	inner := ast.Unparen(ret.Results[0])
+	hi := fn.Pkg.TypesInfo
+	if neg {
+		// !(err != nil)
+		if be, ok := inner.(*ast.BinaryExpr); ok && be.Op == token.NEQ {
+			return isNoErrorTest(hi, &ast.BinaryExpr{X: be.X, Op: token.EQL, Y: be.Y})
+		}
+		return false
+	}
+	return r.noErrorTest(hi, inner, depth+1)
+}
+
+func isNoErrorTest(info *types.Info, x ast.Expr) bool {
+	be, ok := ast.Unparen(x).(*ast.BinaryExpr)
+	if !ok || be.Op != token.EQL {
+		return false
+	}
+	for _, p := range [][2]ast.Expr{{be.X, be.Y}, {be.Y, be.X}} {
+		if core.IsNil(info, p[1]) {
+			if t := info.TypeOf(p[0]); t != nil && cfgq.IsErrorType(t) {
+				return true
+			}
+		}
+	}
+	return false
 }
 
 func sliceLike(t types.Type) bool {
@@ -1377,6 +1652,114 @@ func (r *roler) funcCands(s flow.Site, id *ast.Ident, depth int) ([]fnCand, bool
 	return out, true
 }
 
+// funcCandsExpr is funcCands for the function expression of a call: a local, or
+// a function-typed field of a struct value whose construction can be found
+// (`ev.item` with ev built by a literal, possibly returned by a helper or
+// handed down as a parameter).
+func (r *roler) funcCandsExpr(s flow.Site, fun ast.Expr) ([]fnCand, bool) {
+	switch v := ast.Unparen(fun).(type) {
+	case *ast.Ident:
+		return r.funcCands(s, v, 0)
+	case *ast.SelectorExpr:
+		sel, ok := s.G.Info.Selections[v]
+		if !ok || sel.Kind() != types.FieldVal {
+			return nil, false
+		}
+		fs, fx, ok := r.fieldOrigin(s, v.X, v.Sel.Name, 0)
+		if !ok {
+			return nil, false
+		}
+		// the field's value: a method value, a function, or a local holding one
+		switch e := ast.Unparen(fx).(type) {
+		case *ast.Ident:
+			if f, ok := fs.G.Info.Uses[e].(*types.Func); ok {
+				return []fnCand{{f: f}}, true
+			}
+			return r.funcCands(fs, e, 0)
+		case *ast.SelectorExpr:
+			if sl, ok := fs.G.Info.Selections[e]; ok {
+				if f, isF := sl.Obj().(*types.Func); isF {
+					switch sl.Kind() {
+					case types.MethodVal:
+						return []fnCand{{f: f, recv: e.X}}, true
+					case types.MethodExpr:
+						return []fnCand{{f: f, methodExpr: true}}, true
+					}
+				}
+			}
+			if f, ok := fs.G.Info.Uses[e.Sel].(*types.Func); ok {
+				return []fnCand{{f: f}}, true
+			}
+		}
+	}
+	return nil, false
+}
+
+// fieldOrigin finds the expression field `name` of the struct value x was
+// given when the value was built: x is followed through locals with one
+// definition, parameters and helper results to a composite literal.
+func (r *roler) fieldOrigin(s flow.Site, x ast.Expr, name string, depth int) (flow.Site, ast.Expr, bool) {
+	if depth > 8 {
+		return flow.Site{}, nil, false
+	}
+	x = ast.Unparen(x)
+	if u, ok := x.(*ast.UnaryExpr); ok && u.Op == token.AND {
+		x = ast.Unparen(u.X)
+	}
+	switch v := x.(type) {
+	case *ast.CompositeLit:
+		st, ok := s.G.Info.TypeOf(v).Underlying().(*types.Struct)
+		if !ok {
+			return flow.Site{}, nil, false
+		}
+		for i, el := range v.Elts {
+			if kv, ok := el.(*ast.KeyValueExpr); ok {
+				if id, ok := kv.Key.(*ast.Ident); ok && id.Name == name {
+					return s, kv.Value, true
+				}
+				continue
+			}
+			if i < st.NumFields() && st.Field(i).Name() == name {
+				return s, el, true
+			}
+		}
+		return flow.Site{}, nil, false
+	case *ast.Ident:
+		st := r.e.Step(s, v)
+		if !st.Local || st.Unsafe {
+			return flow.Site{}, nil, false
+		}
+		// no field store on the variable
+		written := false
+		core.Inspect(s.G.Body, func(n ast.Node) bool {
+			if as, ok := n.(*ast.AssignStmt); ok {
+				for _, l := range as.Lhs {
+					if sel, ok := ast.Unparen(l).(*ast.SelectorExpr); ok {
+						if b, ok := ast.Unparen(sel.X).(*ast.Ident); ok && core.ObjOf(s.G.Info, b) == st.Obj {
+							written = true
+						}
+					}
+				}
+			}
+			return !written
+		})
+		if written {
+			return flow.Site{}, nil, false
+		}
+		switch {
+		case st.Entry && st.Bound && len(st.Defs) == 0:
+			return r.fieldOrigin(st.ArgSite, st.Arg, name, depth+1)
+		case !st.Entry && len(st.Defs) == 1 && st.Defs[0].RHS != nil:
+			return r.fieldOrigin(st.Defs[0].Site, st.Defs[0].RHS, name, depth+1)
+		}
+	case *ast.CallExpr:
+		if rets, ok := r.e.Follow(s, v, 0); ok && len(rets) == 1 && rets[0].Expr != nil {
+			return r.fieldOrigin(rets[0].Site, rets[0].Expr, name, depth+1)
+		}
+	}
+	return flow.Site{}, nil, false
+}
+
 // tableLiteral: x names a package-level map/slice/array variable that is
 // initialised with a composite literal and never written in its package.
 func (r *roler) tableLiteral(info *types.Info, x ast.Expr) *ast.CompositeLit {
@@ -1443,21 +1826,127 @@ func (r *roler) callRoleOf(s flow.Site, call *ast.CallExpr, f *types.Func, idx i
 			return out
 		}
 	}
-	if rets, ok := r.e.Follow(s, call, idx); ok {
+	rets, ok := r.e.Follow(s, call, idx)
+	if !ok {
+		// a method called through an interface on a value whose concrete type is known
+		// from where the value comes from (a small type behind an unexported interface)
+		if fn, recv, found := r.devirtualise(s, call, f); found {
+			rets, ok = r.e.FollowFunc(s, call, fn, false, recv, idx)
+		}
+	}
+	if ok {
 		if len(rets) == 0 {
 			return "?no-successful-return"
 		}
 		var parts []string
 		for _, rt := range rets {
+			if idx == 0 && r.returnsNotOK(rt) {
+				continue // `return x, false`: by convention x is meaningless and the caller tests ok first
+			}
 			if rt.Call != nil {
 				parts = append(parts, r.callRole(rt.Site, rt.Call, idx, d+1))
 			} else {
 				parts = append(parts, r.roleD(rt.Site, rt.Expr, d+1))
 			}
 		}
+		if len(parts) == 0 {
+			return "?no-successful-return"
+		}
 		return union(parts)
 	}
 	return r.leafRender(s, call, f, idx, d)
+}
+
+// returnsNotOK: the return statement's last result is the constant false of a
+// trailing boolean result (the `value, ok` convention).
+func (r *roler) returnsNotOK(rt flow.Ret) bool {
+	ret, ok := rt.At.Node().(*ast.ReturnStmt)
+	if !ok || len(ret.Results) < 2 {
+		return false
+	}
+	last := ret.Results[len(ret.Results)-1]
+	tv, ok := rt.G.Info.Types[last]
+	if !ok || tv.Value == nil || tv.Value.Kind() != constant.Bool {
+		return false
+	}
+	return !constant.BoolVal(tv.Value)
+}
+
+// devirtualise: call is `x.M(...)` with M a method of an interface and every
+// origin of x is an expression of one concrete (non-interface) type declared in
+// the module: the method M of that type, and the receiver expression.
+func (r *roler) devirtualise(s flow.Site, call *ast.CallExpr, f *types.Func) (*core.Fn, ast.Expr, bool) {
+	sig, _ := f.Type().(*types.Signature)
+	if sig == nil || sig.Recv() == nil {
+		return nil, nil, false
+	}
+	if _, isIface := sig.Recv().Type().Underlying().(*types.Interface); !isIface {
+		return nil, nil, false
+	}
+	sel, ok := ast.Unparen(call.Fun).(*ast.SelectorExpr)
+	if !ok {
+		return nil, nil, false
+	}
+	var concrete types.Type
+	bad := false
+	var visit func(s flow.Site, x ast.Expr, depth int)
+	visit = func(s flow.Site, x ast.Expr, depth int) {
+		if bad || depth > 8 {
+			bad = true
+			return
+		}
+		x = ast.Unparen(x)
+		t := s.G.Info.TypeOf(x)
+		if t == nil {
+			bad = true
+			return
+		}
+		if _, isIface := t.Underlying().(*types.Interface); !isIface {
+			if concrete != nil && !types.Identical(concrete, t) {
+				bad = true
+			}
+			concrete = t
+			return
+		}
+		id, ok := x.(*ast.Ident)
+		if !ok {
+			bad = true
+			return
+		}
+		st := r.e.Step(s, id)
+		if !st.Local || st.Unsafe {
+			bad = true
+			return
+		}
+		if st.Entry {
+			if !st.Bound {
+				bad = true
+				return
+			}
+			visit(st.ArgSite, st.Arg, depth+1)
+		}
+		for _, def := range st.Defs {
+			if def.RHS == nil {
+				bad = true
+				return
+			}
+			visit(def.Site, def.RHS, depth+1)
+		}
+	}
+	visit(s, sel.X, 0)
+	if bad || concrete == nil {
+		return nil, nil, false
+	}
+	obj, _, _ := types.LookupFieldOrMethod(concrete, true, f.Pkg(), f.Name())
+	m, ok := obj.(*types.Func)
+	if !ok {
+		return nil, nil, false
+	}
+	fn := r.c.FnOf(m)
+	if fn == nil || fn.Decl == nil || fn.Decl.Body == nil {
+		return nil, nil, false
+	}
+	return fn, sel.X, true
 }
 
 // leafRender names the result of a leaf call by callee and argument roles.
